@@ -60,3 +60,16 @@ Definition run_c08_case (c : N * option (Z * N) * list N) : list Z :=
             end in
   let '(st', o) := frame_received SCHEMAS (kind_of v) (commands_of v) (invalid_fid_of v) st data in
   flat_map enc_pout o ++ [(-1)%Z; Z.of_nat (List.length (p_awaiting st')); Z.of_nat (List.length (p_calls st'))].
+
+(* ---- C13: callback frame bytes -> decode over the generated tables -> translate ------------------ *)
+Require Import BV.model.Translate.
+Definition run_c13_case (c : N * Z * list N) : list Z :=
+  let '(v, own, data) := c in
+  match frame_rx_decode SCHEMAS (kind_of v) (commands_of v) data with
+  | None => [(-2)%Z]
+  | Some (_, cmd, vs, _) =>
+      match translate v own (c_name cmd) vs with
+      | None => [(-3)%Z]
+      | Some evs => flat_map enc_event evs ++ [(-1)%Z]
+      end
+  end.
